@@ -1,24 +1,83 @@
-(** The generated lock-footprint table (gen/LockFootprints.v, regenerated from /repo/src on every
-    run) has at most the documented number of critical sections per public call. *)
+(** The generated STRUCTURED programs (gen/LockFootprints.all_programs, regenerated from /repo/src on
+    every run): on every path, every public call has at most the documented number of top-level
+    critical sections over the bar mutex / the MultiState lock. *)
 From Coq Require Import List String Bool Arith Lia.
 From IndModel Require Import Base Locks Brackets.
 From IndGen Require Import LockFootprints.
+From IndProofs Require Import LocksProofs.
 Import ListNotations.
 
-Lemma generated_brackets_ok : forallb bracket_ok all_footprints = true.
-Proof. vm_compute. reflexivity. Qed.
-
-Lemma generated_brackets : forall name fp,
-  In (name, fp) all_footprints -> (sections fp <= allowed_sections name)%nat.
+Lemma st_eqb_eq : forall x y : nat * nat, st_eqb x y = true -> x = y.
 Proof.
-  intros name fp Hin.
-  pose proof (proj1 (forallb_forall bracket_ok all_footprints) generated_brackets_ok (name, fp) Hin) as H.
-  unfold bracket_ok in H. cbn [fst snd] in H. apply Nat.leb_le. exact H.
+  intros [a b] [c d] H. unfold st_eqb in H. simpl in H. apply andb_prop in H. destruct H as [H1 H2].
+  apply Nat.eqb_eq in H1. apply Nat.eqb_eq in H2. subst. reflexivity.
 Qed.
 
-(* the table is not trivial: it contains remove / println / a bar update with their brackets *)
+(** the concrete run of [sec_step] counts exactly [sections_from] *)
+Lemma arun_sec : forall tr d n st, arun sec_step (d, n) tr = Some st -> snd st = (n + sections_from d tr)%nat.
+Proof.
+  induction tr as [|a tr IH]; intros d n st H; simpl in H.
+  - injection H as <-. simpl. lia.
+  - destruct a as [c|c|c| | | | | | | | ]; simpl in H |- *; try (apply IH; exact H).
+    + destruct (state_lock c); [|apply IH; exact H].
+      rewrite (IH _ _ _ H). destruct d; lia.
+    + destruct (state_lock c); apply IH; exact H.
+Qed.
+
+Lemma fold_max_ge : forall (outs : list (nat * nat)) st, In st outs ->
+  (snd st <= fold_right (fun st m => Nat.max (snd st) m) 0 outs)%nat.
+Proof.
+  induction outs as [|x r IH]; intros st H; [contradiction|]. simpl.
+  destruct H as [->|H]; [lia|]. specialize (IH st H). lia.
+Qed.
+
+(** soundness: every path of [p] has at most [max_sections p] top-level critical sections *)
+Theorem max_sections_sound : forall p k, max_sections p = Some k ->
+  forall tr, paths p tr -> (sections tr <= k)%nat.
+Proof.
+  intros p k H tr Hp. unfold max_sections in H.
+  destruct (acheck st_eqb sec_step p [(0, 0)%nat]) as [outs|] eqn:E; [|discriminate]. injection H as <-.
+  destruct (acheck_sound (nat * nat) st_eqb st_eqb_eq sec_step p [(0, 0)%nat] outs E (0, 0)%nat tr
+              (or_introl eq_refl) Hp) as (st & R & I).
+  pose proof (arun_sec tr 0 0 st R) as Hs. simpl in Hs. unfold sections. rewrite <- Hs.
+  apply fold_max_ge. exact I.
+Qed.
+
+Lemma generated_brackets_p_ok : forallb bracket_ok_p all_programs = true.
+Proof. vm_compute. reflexivity. Qed.
+
+(** every path of every generated program (for the ticker program: every path of one iteration of its
+    loop) has at most [allowed_sections name] critical sections *)
+Theorem generated_brackets_paths : forall name p,
+  In (name, p) all_programs ->
+  forall tr, paths (match p with PLoop b => b | _ => p end) tr ->
+  (sections tr <= allowed_sections name)%nat.
+Proof.
+  intros name p Hin tr Hp.
+  pose proof (proj1 (forallb_forall bracket_ok_p all_programs) generated_brackets_p_ok (name, p) Hin) as H.
+  unfold bracket_ok_p in H. cbn [fst snd] in H.
+  set (q := match p with PLoop b => b | _ => p end) in *.
+  assert (G : exists k, max_sections q = Some k /\ (k <= allowed_sections name)%nat).
+  { assert (H' : match max_sections q with Some k => Nat.leb k (allowed_sections name) | None => false end = true)
+      by (subst q; destruct p; exact H).
+    destruct (max_sections q) as [k|]; [|discriminate]. exists k. split; [reflexivity|apply Nat.leb_le; exact H']. }
+  destruct G as (k & E & Hk). pose proof (max_sections_sound _ k E tr Hp). lia.
+Qed.
+
+(* the table is not trivial: remove is one bracket on both of its paths, the sections counter counts *)
 Lemma generated_brackets_nonvacuous :
-  In ("MultiProgress::remove"%string, [CAcq CBar; CAcq CMulti; CRel CMulti; CRel CBar]) all_footprints
+  (exists p, pg_lookup "MultiProgress::remove"%string all_programs = Some p /\
+             max_sections p = Some 1%nat /\
+             paths p [CAcq CBar; CAcq CMulti; CRel CMulti; CRel CBar] /\ paths p [CAcq CBar; CRel CBar])
   /\ sections [CAcq CBar; CAcq CMulti; CRel CMulti; CRel CBar] = 1%nat
   /\ sections [CAcq CBar; CRel CBar; CAcq CMulti; CRel CMulti; CAcq CBar; CRel CBar] = 3%nat.
-Proof. split; [vm_compute; tauto | split; reflexivity]. Qed.
+Proof.
+  split; [|split; reflexivity].
+  destruct (pg_lookup "MultiProgress::remove"%string all_programs) as [p|] eqn:E; [|vm_compute in E; discriminate].
+  exists p. split; [reflexivity|]. vm_compute in E. injection E as <-.
+  split; [vm_compute; reflexivity|]. split.
+  - match goal with |- paths ?P ?T => change T with (path_of 0%nat P [0%nat]) end.
+    apply path_of_paths. vm_compute. discriminate.
+  - match goal with |- paths ?P ?T => change T with (path_of 0%nat P [1%nat]) end.
+    apply path_of_paths. vm_compute. discriminate.
+Qed.
